@@ -438,7 +438,8 @@ R03E_ALLOWED = {
 R03E_OVERRIDES = {
     "_expr.Expr": "base: flag and generic legality test",
     "_merge.Merge": "join-side table (R03b) and suffix guard (R03c)",
-    "_shuffle.SetIndex": "refuses predicates on the index",
+    "_shuffle.SetIndex": "refuses predicates on the index and a new index given as a separate collection (R03g)",
+    "_shuffle.ShuffleBase": "refuses a key given as a separate collection (R03g), otherwise the generic test",
     "io.parquet.ReadParquet": "reader translation gate (R03a)",
 }
 
@@ -525,3 +526,66 @@ def r03f(ctx):
     else:
         first = next(iter(sides.values()))
         ctx.bad("_merge.Merge:and-split-side", merge.module.loc(first[1]), "the sites disagree on which side of a conjunction is handled first: " + ", ".join(f"{k}: .{v[0]}" for k, v in sorted(sides.items())) + " - the legality test then judges a different term than the one the rewrite moves")
+
+
+def _params_that_may_hold_collections(model, c):
+    """parameters p != frame of class c (or a class sharing its lowering) for which the code itself tests
+    `isinstance(<self.p or a local holding it>, Expr)`: the operand can be a row-aligned collection"""
+    out = set()
+    try:
+        params = set(model.parameters(c))
+    except AnalysisError:
+        return out
+    fam = [k for k in model.expr_classes() if c in k.mro or k in c.mro]
+    for k in fam:
+        for mem in k.members.values():
+            if not isinstance(mem.node, (ast.FunctionDef, ast.AsyncFunctionDef)):
+                continue
+            fn = mem.node
+            held = {}
+            for p in params:
+                for nm in locals_defined_by(fn, f"self.{p}"):
+                    held[nm] = p
+            for n in ast.walk(fn):
+                if isinstance(n, ast.Call) and isinstance(n.func, ast.Name) and n.func.id == "isinstance" and len(n.args) == 2 and "Expr" in {dotted(e) for e in (n.args[1].elts if isinstance(n.args[1], ast.Tuple) else [n.args[1]])}:
+                    a = n.args[0]
+                    if is_self_attr(a) and a.attr in params:
+                        out.add(a.attr)
+                    elif isinstance(a, ast.Name) and a.id in held:
+                        out.add(held[a.id])
+    out.discard("frame")
+    return out
+
+
+@rule(
+    "R03g",
+    ["C03", "C12", "C01"],
+    """A FILTER MOVES BELOW ALL ROW-ALIGNED INPUTS OR NONE: the generic filter relocation (_filter_simplification) filters only
+    `frame`. A class that lets filters pass and has another operand which can be a collection aligned with the frame row by
+    row (the code itself tests `isinstance(self.p, Expr)`, e.g. a shuffle keyed by a Series) must refuse the relocation
+    when that operand is a collection - otherwise the remaining rows are paired with the values of other rows.""",
+)
+def r03g(ctx):
+    model = ctx.model
+    n = 0
+    for c in model.expr_classes():
+        v = model.flag(c, "_filter_passthrough", default=False)
+        if v is not True:
+            continue
+        ps = _params_that_may_hold_collections(model, c)
+        if not ps:
+            continue
+        fpa = c.provider("_filter_passthrough_available")
+        for p in sorted(ps):
+            n += 1
+            cid = f"{c.qual}:collection-operand:{p}"
+            refused = False
+            if fpa is not None and isinstance(fpa.node, ast.FunctionDef):
+                for pt in flow.returns(fpa.node):
+                    if isinstance(pt.stmt.value, ast.Constant) and pt.stmt.value.value is False and any(pol and pmatch(f"isinstance(self.{p}, Expr)", t) is not None for t, pol in flow.facts(pt)):
+                        refused = True
+            if refused:
+                ctx.ok(cid, c.loc, f"relocation refused when `{p}` is a collection")
+            else:
+                ctx.bad(cid, fpa.cls.module.loc(fpa.node) if fpa is not None else c.loc, f"{c.qual} lets filters pass below it, but `{p}` can be a collection aligned with the frame row by row and the relocation filters only the frame: the surviving rows meet the `{p}` values of other rows")
+    ctx.floor("filter pass-through classes with a possible collection operand", n, 3)
